@@ -10,7 +10,7 @@
    16 hops from_modules supports; [closed w]: every far end is a gate of a
    module of the world. *)
 From Coq Require Import List Arith NArith.
-From DesVerif Require Import Topo.Model Topo.Graph Topo.FromGates Topo.Spanned Topo.Conn Topo.Filter Topo.Bfs Topo.World.
+From DesVerif Require Import Topo.Model Topo.Graph Topo.FromGates Topo.Spanned Topo.Conn Topo.Filter Topo.Bfs Topo.World Topo.History.
 Import ListNotations.
 
 (* Global view: one node per module, in module order; node i carries, in gate
@@ -112,6 +112,30 @@ Theorem C19_script_worlds : forall counts chains,
 Proof. intros counts chains. split; [apply build_world_closed|apply build_world_short]. Qed.
 Print Assumptions C19_script_worlds.
 
+(* Histories.  The gate graph may change after a view was taken (gates created
+   and connected while the simulation is built, or by a module while it runs); a
+   script is a history [pre] of queries and wiring operations after the header
+   (counts, chains).  [world_after] is the gate graph the header and the wiring
+   operations of [pre] build, [state_after] the state of the script interpreter
+   (Model.step) after [pre].  Every view query made at that point returns the
+   exact view of THAT graph; the graph is closed, and short when every declared
+   chain has at most 16 hops. *)
+Theorem C19_history_exact : forall counts chains pre,
+  let s := state_after (init_state (build_world counts chains)) pre in
+  let w := world_after (build_world counts chains) pre in
+  h_world s = w /\ closed w /\
+  ((forall c, In c chains -> length (pairs (tl c)) <= S MAX_HOPS) -> Forall op_short pre -> short w) /\
+  (h_topo (fst (step s (OQuery QGlobal))) = global_topology w /\
+   (short w -> nodes (global_topology w) = seq 0 (length w) /\ exact_view w (global_topology w))) /\
+  (forall r, r < length w ->
+     exists t, spanned w r = Some t /\ h_topo (fst (step s (OQuery (QSpanned r)))) = t /\
+               exact_view w t /\ hd_error (nodes t) = Some r /\ forall m, In m (nodes t) <-> mreach w r m) /\
+  (forall ms, let sel := select_modules (length w) [] ms in
+     h_topo (fst (step s (OQuery (QFromModules ms)))) = from_modules w sel /\
+     (short w -> exact_view_on (sel_in sel) w (from_modules w sel))).
+Proof. exact history_exact. Qed.
+Print Assumptions C19_history_exact.
+
 (* Premise of all of the above: a module index stands for a ModuleId, and
    from_modules / spanned find the owner of a chain end by id.  Ids come from a
    wrapping 16-bit counter (ModuleId::gen); wherever it stands (p), the n <= 2^16
@@ -154,6 +178,18 @@ Example C19_nonvacuous_dijkstra :
             lookup 1 m = Some (0, {| e_dst := 1; e_start := (0, 1); e_stop := (1, 0) |}) /\
             lookup 0 m = None.
 Proof. eexists. split; [vm_compute; reflexivity|]. vm_compute. repeat split. Qed.
+
+(* a history: a-b wired, look, then b-c connected late, look again: the second
+   view has the new edges and is connected *)
+Example C19_nonvacuous_history :
+  let w0 : world := [[Endpoint [(1, 0)]]; [Endpoint [(0, 0)]; Standalone]; [Standalone]] in
+  let late := OConnect [(1, 1); (2, 0)] in
+  let s1 := state_after (init_state w0) [OQuery QGlobal] in
+  let s2 := state_after (init_state w0) [OQuery QGlobal; late; OQuery QGlobal] in
+  connected (h_topo s1) = false /\ length (concat (edges (h_topo s1))) = 2 /\
+  connected (h_topo s2) = true /\ length (concat (edges (h_topo s2))) = 4 /\
+  h_world s2 = world_after w0 [late].
+Proof. vm_compute. repeat split. Qed.
 
 Example C19_nonvacuous_filter :
   let t := filter_nodes (fun m => negb (m =? 1)) (global_topology triangle) in
